@@ -315,6 +315,42 @@ def part_answers(ctx):
                 ctx.disagree('answers validation differs from the model', case, impl, o.get('out'))
 
 
+def part_math_config(ctx):
+    """MathMixin.validate_math_config vs the model Mc.validate: random option combinations on the math graders; the first failing rule and its
+    exact message, or acceptance"""
+    import mitxgraders as M
+    rng = ctx.rng
+    asks, meta = [], []
+    classes = [('FormulaGrader', M.FormulaGrader, {}), ('MatrixGrader', M.MatrixGrader, {}), ('SumGrader', M.SumGrader, {'answers': {'lower': '1', 'upper': '3', 'summand': 'n', 'summation_variable': 'n'}})]
+    for it in range(ctx.scale(400, 6000)):
+        cname, cls, base = rng.choice(classes)
+        dfuncs, dvars = sorted(cls.default_functions), sorted(cls.default_variables)
+        pool_f = rng.sample(dfuncs, 4) + ['det', 'trans', 'nosuchfunction', 'Sin']
+        blacklist = rng.sample(pool_f, rng.choice([0, 0, 0, 1, 2]))
+        whitelist = rng.choice([[], [], [], [None], rng.sample(pool_f, rng.randint(1, 3))])
+        variables = rng.sample(['x', 'y', 'pi', 'e', 'i', 'c', 'k2', 'sin', 'z'], rng.randint(0, 4))
+        numbered = rng.sample(['a', 'pi', 'b', 'j'], rng.choice([0, 0, 1, 2]))
+        ucs = {}
+        for nm in rng.sample(['c', 'pi', 'e', 'x', 'y', 'tau', 'i'], rng.choice([0, 1, 2, 3])):
+            ucs[nm] = None if rng.random() < 0.35 else rng.choice([2.5, 3, 1j])
+        ufs = {nm: abs for nm in rng.sample(['f', 'sin', 'det', 'g', 'norm'], rng.choice([0, 0, 1, 2]))}
+        sup = rng.random() < 0.4
+        kw = dict(base, blacklist=blacklist, whitelist=whitelist, variables=variables, numbered_vars=numbered, user_constants=dict(ucs), user_functions=ufs, suppress_warnings=sup)
+        k, v = D.run_impl(lambda: cls(**kw))
+        got = 'ok' if k == 'out' else (v[2] if v[1] == 'ConfigError' else '%s: %s' % (v[1], v[2][:80]))
+        case = {'part': 'math-config', 'class': cname, 'blacklist': blacklist, 'whitelist': whitelist, 'variables': variables, 'numbered_vars': numbered,
+                'user_constants': {a: repr(b) for a, b in ucs.items()}, 'user_functions': sorted(ufs), 'suppress_warnings': sup}
+        ctx.case(case, nontrivial_key=('mc', cname, repr(case)) if got != 'ok' else None, kind='math-config:' + ('ok' if got == 'ok' else got.split(':')[0][:24]))
+        asks.append({'op': 'math_config', 'default_functions': dfuncs, 'default_variables': dvars, 'blacklist': blacklist, 'whitelist': whitelist, 'variables': variables, 'numbered_vars': numbered,
+                     'user_constants': [[a, b is None] for a, b in ucs.items()], 'user_functions': list(ufs), 'suppress_warnings': sup})
+        meta.append((case, got))
+    if ctx.driver:
+        for (case, got), o in zip(meta, ctx.driver.ask_many(asks)):
+            mg = o.get('out') if 'out' in o else o.get('err')
+            if mg != got:
+                ctx.disagree('cross-option validation of the math graders differs from the model', case, got, o)
+
+
 def part_cross(ctx):
     import mitxgraders as M
     from mitxgraders.helpers.calc.specify_domain import SpecifyDomain
@@ -446,6 +482,7 @@ def run(ctx):
     part_options(ctx)
     part_objects(ctx)
     part_cross(ctx)
+    part_math_config(ctx)
     part_answers(ctx)
     part_equiv(ctx)
     part_registered(ctx)
